@@ -65,11 +65,14 @@ CLAIMED["C11"] = dict(
     text="Bounded model checking of the compiled adapt/axisswap/unitconvert code: for all valid from/to descriptor "
          "pairs (symbolic permutation, signs, unit) the adapt kernels deliver out[i]=in[j]*F.mult[j]/T.mult[i], the "
          "inverse is the reverse mapping, to=X equals inv from=X; axisswap realises every signed partial permutation "
-         "of 1..4 axes and its inverse bitwise for all f64; every unit table row resolves to its own factor; the "
-         "unitconvert kernels multiply/divide x,y,z and leave t untouched.",
+         "of 1..4 axes and its inverse bitwise for all f64; axisswap::new (text front end stubbed, S-PPNEW) accepts an "
+         "order list iff it is a signed partial permutation of at most 4 axes; every unit table row resolves to its "
+         "own factor; the unitconvert kernels multiply/divide x,y,z and leave t untouched.",
     note=TRUST + "M-BTREE. Tuple values for float arithmetic in D-SMALL, unit factors in {1,deg,gon} resp. {1..4}. "
          "The angular factor is attached to the two leading positions of a descriptor, as the code and its tests do. "
-         "Outside: rejection of ill-formed order=/unit names at instantiation (text); the descriptor text parser is "
+         "S-PPNEW harnesses: ParsedParameters::new/OpDescriptor::new/Uuid::new_v4/<f64 as Display>::fmt stubbed, "
+         "allocator-model assertions of the drop glue on error paths ignored (DESIGN 9.2 item 8). Outside: "
+         "rejection of unknown unit names and of ill-formed descriptors at instantiation (text); the descriptor text parser is "
          "thorough-tier only (may time out, then reported undecided).",
     technique="Kani/CBMC bounded model checking (SAT) over symbolic descriptors and permutations",
     design="4 (C11)")
